@@ -93,6 +93,19 @@ func c10Corpus(thorough bool) []c10Req {
 			out = append(out, c10Req{Name: "optiontwin/" + bn + "-" + o + "/A", Body: J(a)}, c10Req{Name: "optiontwin/" + bn + "-" + o + "/B", Body: J(withBiases(other, []M{b}))})
 		}
 	}
+	// ELECTRE III with the distillation function left to its default / declared (a valid one, a rejected one): what one
+	// request declares must not reach the one that declares nothing
+	{
+		el := bigRequest("electreIII")
+		withDist := func(d M) M {
+			r := asM(deepCopy(el))
+			asM(r["methodParameters"])["electreDistillation"] = d
+			return M(r)
+		}
+		out = append(out, c10Req{Name: "optiontwin/electre-distillation/default", Body: J(el)},
+			c10Req{Name: "optiontwin/electre-distillation/declared", Body: J(withDist(M{"a": 0.0, "b": 0.05}))},
+			c10Req{Name: "optiontwin/electre-distillation/rejected", Body: J(withDist(M{"a": 0.0, "b": -1.0}))})
+	}
 	inv := invalidCorpus()
 	for i, r := range inv {
 		if i == 1 || i == 3 || i == 19 || strings.Contains(r.Rule, "unknown-ordering") || strings.Contains(r.Rule, "unknown-reference-type") || strings.Contains(r.Rule, "ratio-above-one") ||
